@@ -8,6 +8,7 @@ var Registry = map[string]func(*core.Run){
 	"C03": C03,
 	"C06": C06,
 	"C14": C14,
+	"C16": C16,
 	"C04": C04,
 	"C05": C05,
 }
